@@ -262,6 +262,42 @@ SPEC_CODES = {31: "the S2F16 acknowledge differs from what E5 assigns (EAC 0 onl
 MODEL_CODES = {12: "model and implementation answer differently", 13: "model and implementation hold different values / alarm states"}
 
 
+def wrong_type_case():
+    """S2F15 with values in a format the constant's type cannot hold (a fraction or a text for an integer constant, a text for a float
+    constant, several values for a limited constant), alone and next to a good value: answered with an EAC (not an abort), nothing is
+    applied, and every constant is still reported by S2F13 afterwards."""
+    from secsgem.secs.variables import F4, F8, I4, String, U1, U4
+    eq = Equip()
+    problems = []
+    try:
+        def values():
+            r = eq.request(2, 13, [10, "ex", 30, 40])
+            return None if r is None else list(r.get())
+
+        start = values()
+        for data in ([(10, F4(3.5))], [(10, String("abc"))], [(10, U1([1, 2]))], [("ex", String("x"))], [(10, U4(60)), (30, F8(2.5))], [(30, String("x7"))], [(10, I4(-1))]):
+            r = eq.request(2, 15, [{"ECID": i, "ECV": v} for i, v in data])
+            eac = None if r is None else int(r.get())
+            now = values()
+            shown = [(i, type(v).__name__, v.get()) for i, v in data]
+            if eac is None:
+                problems.append(f"S2F15 {shown}: aborted instead of answered with an EAC")
+            elif eac == 0:
+                problems.append(f"S2F15 {shown}: accepted with EAC 0")
+            if now is None:
+                problems.append(f"after S2F15 {shown} an S2F13 for all four constants is aborted")
+            elif now != start:
+                problems.append(f"S2F15 {shown} (EAC {eac}) changed the constants from {start} to {now}")
+            if problems:
+                break
+        r = eq.request(2, 15, [{"ECID": 10, "ECV": U4(61)}, {"ECID": 30, "ECV": I4(-9)}])
+        if r is None or int(r.get()) != 0 or values() is None or values()[0] != 61 or values()[2] != -9:
+            problems.append(f"a well-typed S2F15 afterwards: EAC {None if r is None else r.get()!r}, constants {values()}")
+    finally:
+        eq.rig.stop()
+    return problems
+
+
 def run(tier, replay=None):
     import json
     import logging
@@ -287,6 +323,11 @@ def run(tier, replay=None):
             lits.append(lit)
     cases = kept
     common.report_wedged(report, wedged, proof)
+    wt = common.guarded(wrong_type_case, "S2F15 with values the constants' types cannot hold", wedged, 60.0)
+    report.coverage["wrong_type_ecv_problems"] = wt
+    if wt:
+        report.violation({"kind": "counterexample", "what": "an S2F15 whose value does not fit the constant's type was not refused cleanly: "
+                          "it is answered with a non-zero EAC, applies nothing, and S2F13 keeps reporting every constant", "problems": wt[:4]}, True, tag="wrongtype")
     bad, stats = evaluate(lits, "c13")
     spec_bad = [(i, m, sc) for i, m, sc in bad if sc >= 30]
     model_bad = [(i, m, sc) for i, m, sc in bad if m >= 10 and sc < 30]
